@@ -156,17 +156,24 @@ theorem copyC_slot_eq {m : Mem} {i j ty : Nat} {w : Option Nat} (hi : m.slots[i]
     copyC m i ty (.slot j) = .ok (bumpCc (m.set i (.live ty w))) := by
   simp [copyC, srcVal_slot hj, constructAt_dead hi]
 
-theorem moveC_co (m : Mem) (i ty : Nat) (s : Src) : moveC .co m i ty s = copyC m i ty s := by
-  simp [moveC]
+theorem moveC_co {k : Kind} (hk : k.mem = .co) (m : Mem) (i ty : Nat) (s : Src) : moveC k m i ty s = copyC m i ty s := by
+  simp [moveC, hk]
 
-theorem moveC_ext_eq {k : Kind} (hk : k ≠ .co) {m : Mem} {i : Nat} (hi : m.slots[i]? = some .dead) (ty v : Nat) :
+theorem moveC_ext_eq {k : Kind} (hk : k.mem ≠ .co) {m : Mem} {i : Nat} (hi : m.slots[i]? = some .dead) (ty v : Nat) :
     moveC k m i ty (.ext v) = .ok (bumpMc (m.set i (.live ty (some v)))) := by
-  simp [moveC, hk, srcVal_ext, constructAt_dead hi, srcMoved]
+  cases hmc : k.tr.mc <;> simp [moveC, hk, hmc, srcVal_ext, constructAt_dead hi, srcMoved]
 
-theorem moveC_slot_eq {k : Kind} (hk : k ≠ .co) {m : Mem} {i j ty : Nat} {w : Option Nat}
+/-- a user-provided move constructor resets its source … -/
+theorem moveC_slot_eq {k : Kind} (hk : k.mem ≠ .co) (hmc : k.tr.mc = true) {m : Mem} {i j ty : Nat} {w : Option Nat}
     (hi : m.slots[i]? = some .dead) (hj : m.slots[j]? = some (.live ty w)) :
     moveC k m i ty (.slot j) = .ok (bumpMc ((m.set i (.live ty w)).set j (.live ty none))) := by
-  simp [moveC, hk, srcVal_slot hj, constructAt_dead hi, srcMoved]
+  simp [moveC, hk, hmc, srcVal_slot hj, constructAt_dead hi, srcMoved]
+
+/-- … a defaulted (trivial) one copies the bytes and leaves the source as it is -/
+theorem moveC_slot_eq_triv {k : Kind} (hk : k.mem ≠ .co) (hmc : k.tr.mc = false) {m : Mem} {i j ty : Nat} {w : Option Nat}
+    (hi : m.slots[i]? = some .dead) (hj : m.slots[j]? = some (.live ty w)) :
+    moveC k m i ty (.slot j) = .ok (bumpMc (m.set i (.live ty w))) := by
+  simp [moveC, hk, hmc, srcVal_slot hj, constructAt_dead hi]
 
 theorem copyA_ext_eq {m : Mem} {i ty : Nat} {w : Option Nat} (hi : m.slots[i]? = some (.live ty w)) (v : Nat) :
     copyA m i ty (.ext v) = .ok (bumpCa (m.set i (.live ty (some v)))) := by
@@ -177,29 +184,41 @@ theorem copyA_slot_eq {m : Mem} {i j ty : Nat} {w u : Option Nat} (hi : m.slots[
     copyA m i ty (.slot j) = .ok (bumpCa (m.set i (.live ty u))) := by
   simp [copyA, srcVal_slot hj, assignAt_live hi]
 
-theorem moveA_co (m : Mem) (i ty : Nat) (s : Src) : moveA .co m i ty s = copyA m i ty s := by
-  simp [moveA]
+theorem moveA_co {k : Kind} (hk : k.mem = .co) (m : Mem) (i ty : Nat) (s : Src) : moveA k m i ty s = copyA m i ty s := by
+  simp [moveA, hk]
 
-theorem moveA_ext_eq {k : Kind} (hk : k ≠ .co) {m : Mem} {i ty : Nat} {w : Option Nat}
+theorem moveA_ext_eq {k : Kind} (hk : k.mem ≠ .co) {m : Mem} {i ty : Nat} {w : Option Nat}
     (hi : m.slots[i]? = some (.live ty w)) (v : Nat) :
     moveA k m i ty (.ext v) = .ok (bumpMa (m.set i (.live ty (some v)))) := by
-  simp [moveA, hk, srcVal_ext, assignAt_live hi, srcMoved]
+  cases hma : k.tr.ma <;> simp [moveA, hk, hma, srcVal_ext, assignAt_live hi, srcMoved]
 
-theorem moveA_slot_eq {k : Kind} (hk : k ≠ .co) {m : Mem} {i j ty : Nat} {w u : Option Nat} (hij : i ≠ j)
+theorem moveA_slot_eq {k : Kind} (hk : k.mem ≠ .co) (hma : k.tr.ma = true) {m : Mem} {i j ty : Nat} {w u : Option Nat} (hij : i ≠ j)
     (hi : m.slots[i]? = some (.live ty w)) (hj : m.slots[j]? = some (.live ty u)) :
     moveA k m i ty (.slot j) = .ok (bumpMa ((m.set i (.live ty u)).set j (.live ty none))) := by
   have hne : ¬ (j = i) := fun e => hij e.symm
-  simp [moveA, hk, srcVal_slot hj, assignAt_live hi, srcMoved, hne]
+  simp [moveA, hk, hma, srcVal_slot hj, assignAt_live hi, srcMoved, hne]
+
+/-- a defaulted (trivial) move assignment copies the bytes and leaves the source as it is -/
+theorem moveA_slot_eq_triv {k : Kind} (hk : k.mem ≠ .co) (hma : k.tr.ma = false) {m : Mem} {i j ty : Nat} {w u : Option Nat} (hij : i ≠ j)
+    (hi : m.slots[i]? = some (.live ty w)) (hj : m.slots[j]? = some (.live ty u)) :
+    moveA k m i ty (.slot j) = .ok (bumpMa (m.set i (.live ty u))) := by
+  have hne : ¬ (j = i) := fun e => hij e.symm
+  simp [moveA, hk, hma, srcVal_slot hj, assignAt_live hi, hne]
 
 /-- self-move-assignment of a moved-from object is legal and changes nothing but the counter -/
-theorem moveA_self_none {k : Kind} (hk : k ≠ .co) {m : Mem} {i ty : Nat}
+theorem moveA_self_none {k : Kind} (hk : k.mem ≠ .co) {m : Mem} {i ty : Nat}
     (hi : m.slots[i]? = some (.live ty none)) : moveA k m i ty (.slot i) = .ok (bumpMa m) := by
   simp [moveA, hk, srcVal_slot hi]
 
-/-- self-move-assignment of an object that holds its value is the illegal transition -/
-theorem moveA_self_some {k : Kind} (hk : k ≠ .co) {m : Mem} {i ty v : Nat}
+/-- self-move-assignment of an object that holds its value through a user-provided move assignment is the illegal transition -/
+theorem moveA_self_some {k : Kind} (hk : k.mem ≠ .co) (hma : k.tr.ma = true) {m : Mem} {i ty v : Nat}
     (hi : m.slots[i]? = some (.live ty (some v))) : moveA k m i ty (.slot i) = .error (.selfMove i) := by
-  simp [moveA, hk, srcVal_slot hi]
+  simp [moveA, hk, hma, srcVal_slot hi]
+
+/-- a defaulted (trivial) move assignment of an object to itself changes nothing but the counter -/
+theorem moveA_self_triv {k : Kind} (hk : k.mem ≠ .co) (hma : k.tr.ma = false) {m : Mem} {i ty : Nat} {w : Option Nat}
+    (hi : m.slots[i]? = some (.live ty w)) : moveA k m i ty (.slot i) = .ok (bumpMa m) := by
+  cases w <;> simp [moveA, hk, hma, srcVal_slot hi]
 
 theorem destroyAt_eq {m : Mem} {i ty : Nat} {w : Option Nat} (hi : m.slots[i]? = some (.live ty w)) :
     destroyAt m i ty = .ok (bumpD (m.set i .dead)) := by
@@ -227,9 +246,8 @@ theorem copyC_slot_spec {m : Mem} {i j ty : Nat} {w : Option Nat} (hi : m.slots[
 
 theorem moveC_ext_spec (k : Kind) {m : Mem} {i : Nat} (hi : m.slots[i]? = some .dead) (ty v : Nat) :
     ∃ m', moveC k m i ty (.ext v) = .ok m' ∧ Eff m m' i i ∧ m'.slots[i]? = some (.live ty (some v)) := by
-  by_cases hk : k = .co
-  · subst hk
-    rw [moveC_co]
+  by_cases hk : k.mem = .co
+  · rw [moveC_co hk]
     exact copyC_ext_spec hi ty v
   · exact ⟨_, moveC_ext_eq hk hi ty v,
       eff_construct hi ty (some v) _ rfl (by simp [bumpMc, Cnt.constructed]; omega) rfl⟩
@@ -245,12 +263,18 @@ theorem moveC_slot_spec (k : Kind) {m : Mem} {i j ty : Nat} {w : Option Nat} (hi
     subst e
     rw [hi] at hj
     cases hj
-  by_cases hk : k = .co
-  · subst hk
-    rw [moveC_co]
+  by_cases hk : k.mem = .co
+  · rw [moveC_co hk]
     obtain ⟨m', h1, h2, h3⟩ := copyC_slot_spec hi hj
     exact ⟨m', h1, h2.weaken j, h3, w, by rw [h2.frame j (fun e => hij e.symm) (fun e => hij e.symm)]; exact hj⟩
-  · refine ⟨_, moveC_slot_eq hk hi hj, ?_⟩
+  · cases hmc : k.tr.mc
+    · -- trivial move constructor: the result is that of a copy construction, counted as a move
+      have hji : j ≠ i := fun e => hij e.symm
+      have e1 : Eff m (bumpMc (m.set i (.live ty w))) i i ∧ (bumpMc (m.set i (.live ty w))).slots[i]? = some (.live ty w) :=
+        eff_construct hi ty w _ rfl (by simp [bumpMc, Cnt.constructed]; omega) rfl
+      exact ⟨_, moveC_slot_eq_triv hk hmc hi hj, e1.1.weaken j, e1.2, w,
+        by rw [e1.1.frame j hji hji]; exact hj⟩
+    refine ⟨_, moveC_slot_eq hk hmc hi hj, ?_⟩
     have hj1 : (m.set i (.live ty w)).slots[j]? = some (.live ty w) := by
       rw [Mem.set_get_ne m (fun e => hij e.symm)]; exact hj
     have g2 : (bumpMc ((m.set i (.live ty w)).set j (.live ty none))).slots[j]? = some (.live ty none) := by
@@ -285,9 +309,8 @@ theorem copyA_slot_spec {m : Mem} {i j ty : Nat} {w u : Option Nat} (hi : m.slot
 theorem moveA_ext_spec (k : Kind) {m : Mem} {i ty : Nat} {w : Option Nat}
     (hi : m.slots[i]? = some (.live ty w)) (v : Nat) :
     ∃ m', moveA k m i ty (.ext v) = .ok m' ∧ Eff m m' i i ∧ m'.slots[i]? = some (.live ty (some v)) := by
-  by_cases hk : k = .co
-  · subst hk
-    rw [moveA_co]
+  by_cases hk : k.mem = .co
+  · rw [moveA_co hk]
     exact copyA_ext_spec hi v
   · exact ⟨_, moveA_ext_eq hk hi v, eff_assign hi ty (some v) _ rfl (by simp [bumpMa, Cnt.constructed]) rfl⟩
 
@@ -297,12 +320,18 @@ theorem moveA_slot_spec (k : Kind) {m : Mem} {i j ty : Nat} {w u : Option Nat} (
     (hi : m.slots[i]? = some (.live ty w)) (hj : m.slots[j]? = some (.live ty u)) :
     ∃ m', moveA k m i ty (.slot j) = .ok m' ∧ Eff m m' i j ∧ m'.slots[i]? = some (.live ty u) ∧
       ∃ u', m'.slots[j]? = some (.live ty u') := by
-  by_cases hk : k = .co
-  · subst hk
-    rw [moveA_co]
+  by_cases hk : k.mem = .co
+  · rw [moveA_co hk]
     obtain ⟨m', h1, h2, h3⟩ := copyA_slot_spec hi hj
     exact ⟨m', h1, h2.weaken j, h3, u, by rw [h2.frame j (fun e => hij e.symm) (fun e => hij e.symm)]; exact hj⟩
-  · refine ⟨_, moveA_slot_eq hk hij hi hj, ?_⟩
+  · cases hma : k.tr.ma
+    · -- trivial move assignment: the result is that of a copy assignment, counted as a move
+      have hji : j ≠ i := fun e => hij e.symm
+      have e1 : Eff m (bumpMa (m.set i (.live ty u))) i i ∧ (bumpMa (m.set i (.live ty u))).slots[i]? = some (.live ty u) :=
+        eff_assign hi ty u _ rfl (by simp [bumpMa, Cnt.constructed]) rfl
+      exact ⟨_, moveA_slot_eq_triv hk hma hij hi hj, e1.1.weaken j, e1.2, u,
+        by rw [e1.1.frame j hji hji]; exact hj⟩
+    refine ⟨_, moveA_slot_eq hk hma hij hi hj, ?_⟩
     have hj1 : (m.set i (.live ty u)).slots[j]? = some (.live ty u) := by
       rw [Mem.set_get_ne m (fun e => hij e.symm)]; exact hj
     refine ⟨⟨by simp, fun x hx hy => ?_, fun hb => ?_⟩, ?_, none, ?_⟩
